@@ -12,29 +12,55 @@ Open Scope N_scope.
 Definition C16_reopen_statement : Prop :=
   forall M ps a b, (4 <= M)%nat -> ps <= 1048568 -> Forall op_ok (a ++ b) -> reopen_agrees M ps a b = true.
 
-(* PARTIAL.  Proved: the well-formedness invariant the reopen argument needs holds at every point of every history of
-   a persistent tree: tree pages and free list are duplicate-free and are exactly the ids 1..nextPage-1 (so the pages
-   reinit does not reach from the root are exactly the free list), the stats are exact recounts (what reinit
-   recomputes), and the map is correct (C10), so every close point is a state of this kind.
-   Missing for C16_reopen_statement: the three lemmas about reinit itself -- (1) rebuild (page_of root fl) 1 = root
-   (lookup of a page id in the table of a duplicate-free tree), (2) frontier = nextPage, (3) the first page neither
-   reached nor pointed to is the free-list head and following word 0 from it gives back the free list. *)
-Theorem C16_reopen_partial : forall M ps ops, (4 <= M)%nat -> ps <= 1048568 -> Forall op_ok ops ->
-  exists st0 st, tree_new_file M ps = Some st0 /\ run M ps ops st0 = Some st /\ WFt M st /\
-    NoDup (pids (root st) ++ freeList (al st)) /\
-    (forall p, In p (pids (root st) ++ freeList (al st)) <-> 1 <= p < nextPage (al st)) /\
-    stat_leaf_keys st = Z.of_nat (length (entries (root st))) /\
-    stat_pages_free st = Z.of_nat (length (freeList (al st))) /\
-    nextPage (al st) * ps <= data_len (al st) /\ offset (al st) <= curSz (al st).
+(* Close + NewTreePersistent at any point of any history: the reopened tree has the same pages and leaf entries (hence
+   the same key-value mapping), the same nextPage (NumPages), the same free list (freePage and every later recycling
+   decision), the same NumLeafKeys and NumPagesFree; reinit does not panic (the frontier scan stays inside data); the
+   reopened state satisfies the full invariant WF, so it continues to behave as a correct map and its page accounting
+   stays exact (recycled pages are handed out again, never twice): running any further history b on it succeeds,
+   keeps WF, and ends with exactly the map of the un-interrupted history a ++ b. *)
+Theorem C16_reopen : forall M ps a b, (4 <= M)%nat -> 0 < ps <= 1048568 -> Forall op_ok a -> Forall op_ok b ->
+  exists st0 s s' y,
+    tree_new_file M ps = Some st0 /\ run M ps a st0 = Some s /\ tree_reopen M ps s = Some s' /\
+    (root s' = root s /\ nextPage (al s') = nextPage (al s) /\ freeList (al s') = freeList (al s) /\
+     stat_leaf_keys s' = stat_leaf_keys s /\ stat_pages s' = stat_pages s /\
+     stat_pages_free s' = stat_pages_free s /\ stat_free_page s' = stat_free_page s) /\
+    (forall k, abs_st s' k = abs_st s k) /\ WF M ps s' /\
+    run M ps b s' = Some y /\ WF M ps y /\
+    (forall k, abs_st y k = ref_run (a ++ b) (fun _ => 0) k) /\
+    (forall k, valid_key k -> tree_get y k = ref_run (a ++ b) (fun _ => 0) k).
 Proof.
-  intros M ps ops HM Hps Hok.
+  intros M ps a b HM [Hps0 Hps] Ha Hb.
   destruct (new_file_wf M HM ps Hps) as (st0 & H0 & Hwf0).
-  destruct (history_wf M HM ps ops Hps st0 Hwf0 Hok) as (st & Hr & [Hwt Hwa]).
-  exists st0, st. split; [exact H0|]. split; [exact Hr|]. split; [exact Hwt|].
-  destruct (wfa_pages M HM ps st Hwa) as (H1 & H2 & H3 & H4).
-  destruct Hwa as [(_ & _ & _ & _ & H5 & H6) _].
-  split; [exact H1|]. split; [exact H2|]. split; [exact H3|]. split; [exact H4|]. split; [exact H6|exact H5].
+  destruct (tree_new_file_spec M HM ps) as (st0' & H0' & _ & Habs0). rewrite H0 in H0'. injection H0' as <-.
+  destruct (history_spec M HM ps a st0 (fun _ => 0) (proj1 Hwf0) Habs0 Ha) as (s & Hra & _ & Habs_s).
+  destruct (history_wf M HM ps a Hps st0 Hwf0 Ha) as (s2 & Hra2 & Hwf_s). rewrite Hra in Hra2. injection Hra2 as <-.
+  pose proof (tree_reopen_spec M HM ps s Hps0 (proj2 Hwf_s)) as Hro.
+  pose proof (reopened_wf M ps s Hwf_s) as Hwf_s'.
+  assert (Habs_s' : forall k, abs_st (reopened s) k = ref_run a (fun _ => 0) k) by (intros k; apply Habs_s).
+  destruct (history_spec M HM ps b (reopened s) _ (proj1 Hwf_s') Habs_s' Hb) as (y & Hrb & Hwt_y & Habs_y).
+  destruct (history_wf M HM ps b Hps (reopened s) Hwf_s' Hb) as (y2 & Hrb2 & Hwf_y). rewrite Hrb in Hrb2. injection Hrb2 as <-.
+  exists st0, s, (reopened s), y.
+  assert (Hfinal : forall k, abs_st y k = ref_run (a ++ b) (fun _ => 0) k).
+  { intros k. rewrite Habs_y. unfold ref_run. rewrite fold_left_app. reflexivity. }
+  split; [exact H0|]. split; [exact Hra|]. split; [exact Hro|].
+  split; [repeat split|]. split; [reflexivity|]. split; [exact Hwf_s'|]. split; [exact Hrb|].
+  split; [exact Hwf_y|]. split; [exact Hfinal|].
+  intros k Hk. rewrite (tree_get_spec M HM y k Hwt_y Hk). apply Hfinal.
 Qed.
+
+(* the reopened state and the state before the close are equal in the boolean observable projection used below *)
+Theorem C16_reopen_same_obs : forall M ps st, (4 <= M)%nat -> 0 < ps -> WF M ps st ->
+  exists st', tree_reopen M ps st = Some st' /\ same_obs st st' = true /\ WF M ps st'.
+Proof.
+  intros M ps st HM Hps Hwf. exists (reopened st).
+  split; [exact (tree_reopen_spec M HM ps st Hps (proj2 Hwf))|]. split; [apply reopened_same|apply reopened_wf; exact Hwf].
+Qed.
+
+(* PARTIAL (the remaining part of C16_reopen_statement): that the continued run on the reopened tree also has the
+   same PAGE-LEVEL observables (tree pages, nextPage, free list, stats) as the un-interrupted run -- i.e. that the
+   operations do not depend on the ghost depth beyond the tree's height nor on the buffer fields curSz/offset -- is
+   not proved in general; C16_reopen proves equality of the MAPS of the two runs and WF of both.  The page-level
+   equality is evaluated below on concrete histories at every split point. *)
 
 (* The full statement evaluated: page size 80 (M = 4), a history with 3 levels of splits, overwrites, a DeleteBelow
    that frees pages, re-inserts that recycle them, a rewriting IterateKV and a second DeleteBelow -- closed and
@@ -64,6 +90,7 @@ Proof.
   split; [vm_compute; reflexivity|]. repeat split; vm_compute; reflexivity.
 Qed.
 
-Print Assumptions C16_reopen_partial.
+Print Assumptions C16_reopen.
+Print Assumptions C16_reopen_same_obs.
 Print Assumptions C16_reopen_every_split_point.
 Print Assumptions C16_nonvacuous.
